@@ -183,6 +183,13 @@ func (j *job[T]) changeStatus(s status) {
 		}
 	}
 
+	if s == queued {
+		// the submitter marks the job as queued after it is already visible to the
+		// dispatcher, so never move a job that has progressed back to queued
+		j.status.CompareAndSwap(created, queued)
+		return
+	}
+
 	j.status.Store(s)
 }
 
